@@ -298,6 +298,6 @@ SUBS = [
 
 MANIFEST = dict(
     technique="property-based testing: Hypothesis-generated plain-data charts rendered to .qua text with the format's syntactic freedom (read direction) or built in memory through public constructors (write direction); oracle = PyYAML safe_load + an independent interpretation of the loaded mapping; round trips in both orders",
-    level_text="Exploration: thousands of generated documents and in-memory charts per run agree with the reference in the read direction, write a document that loads, uses only format keys/types, contains no NaN and denotes the same chart within < 1 ms, and round-trip in both orders. Every omitted-key class (none/some/all items), hits-only, holds-only, empty sections, quoting classes and build paths are counted in the evidence labels. Sampling cannot prove absence; histories through the converters are covered by C08/C09.",
+    level_text="Exploration: thousands of generated documents and in-memory charts per run agree with the reference in the read direction, write a document that loads, uses only format keys/types, contains no NaN and denotes the same chart within < 1 ms, and round-trip in both orders. Every omitted-key class (none/some/all items), hits-only, holds-only, empty sections, quoting classes and build paths are counted in the evidence labels. Sampling cannot prove absence; histories through the converters are covered by C08/C09. The real .qua files shipped with the repository are read, compared and written back; thorough adds an atheris/libFuzzer campaign on the same strategy.",
     level_note="trusted: PyYAML safe_load, vlib/ref/qua.py (~120 lines), Hypothesis; the renderer is self-checked against the reference in every case; no number is demanded for an omitted Bpm/Multiplier; converter histories are not generated here",
 )
